@@ -39,6 +39,9 @@ def main():
             if fn and not os.environ.get('SELFTEST_FULL'):
                 cmd += ['-func', r'(^|[.)])'+re.escape(fn)+'$']
             r=subprocess.run(cmd,capture_output=True,text=True)
+            if '-func' in cmd and 'no functions under contract' in r.stdout:
+                cmd = cmd[:cmd.index('-func')]
+                r=subprocess.run(cmd,capture_output=True,text=True)
             out=r.stdout
             hit=[l for l in out.split('\n') if l.startswith('VIOLATION') and ('obligation='+obl) in l]
             allv=[l for l in out.split('\n') if l.startswith('VIOLATION')]
